@@ -578,7 +578,7 @@ func main() {
 		"sort.Reverse; strings.Map/FieldsFunc/IndexFunc/TrimFunc, bytes.Map, compiled helper applying an interpreted func; fmt.Stringer and error through compiled helpers taking that interface type; "+
 		"interpreted io.Reader through io.Copy/ioutil.ReadAll/io.ReadFull/bufio, interpreted io.Writer through fmt.Fprintf/io.WriteString/io.Copy; heap.Interface; callbacks run on goroutines not started by the interpreter: "+
 		"compiled parallelMap, time.AfterFunc, sync.Once, compiled inGoroutine; 60 (thorough 1200) programs whose callbacks PANIC for some arguments (string/int/error values, division by zero, at call depth 0..3) on goroutines started by the compiled helper goEach "+
-		"(one at a time, all at once, goroutine started by a goroutine, caller's goroutine) and recover through a deferred top-level function, deferred closure, deferred method, a top-level callee's defer, a closure callback deferring a top-level function, re-panic in a deferred closure + top-level recover, or not at all (the helper reports the escaping panic); compiled std functions called with interpreted arguments), each run in the interpreter and compiled with go build (go 1.18 module), outputs compared; "+
+		"(one at a time, goroutine started by a goroutine, caller's goroutine) and recover through a deferred top-level function, deferred closure, deferred method, a top-level callee's defer, a closure callback deferring a top-level function, re-panic in a deferred closure + top-level recover, or not at all (the helper reports the escaping panic); compiled std functions called with interpreted arguments), each run in the interpreter and compiled with go build (go 1.18 module), outputs compared; "+
 		"avoided class (known finding c11:proxy-unwrapped-into-empty-interface): a proxied interpreted value passed to a compiled parameter of type interface{}; corpus programs run first. "+
 		"Plus every method of every P_* proxy of imports.Packages called through its interface with PRNG arguments (recording closures in the fields). Plus vtable cases: random interpreted method sets converted to 10 compiled interfaces, every proxy field called to identify the stored method (model: coq/C11 fill). Plus conversion-site cases (model: coq/C11 crun/cread): ONE conversion site in a loop executed once per CConv operation on an addressable slice element, CSet operations assign to the elements in between, every interface value produced is read at the end; oracle: the same operation list run natively; non-trivial when the site is executed >= 2 times. "+
 		"A program is non-trivial when at least one interpreted function or method was invoked by compiled code (all templates); distinct by SHA-256 of the source")
